@@ -466,6 +466,10 @@ func (w *world) pickAcc(r *Rng, inBlock []*acctInfo, wantFresh int) *acctInfo {
 		}
 		return cand[r.Intn(len(cand))]
 	}
+	if x >= 96 {
+		// one of the accounts that also sign vesting transactions
+		return w.byHex[hex.EncodeToString(w.rich[7+r.Intn(2)].GetCosmosAddress())]
+	}
 	if x < wantFresh+12 && len(inBlock) > 0 {
 		return inBlock[r.Intn(len(inBlock))]
 	}
@@ -602,7 +606,12 @@ func (w *world) genVesting(r *Rng, signers *[]*itutiltypes.TestAccount, inBlock 
 	o := &op{Kind: opVesting}
 	o.Payer = (*signers)[0]
 	*signers = (*signers)[1:]
+	_, funderProven := w.shadow[hex.EncodeToString(o.Payer.GetCosmosAddress())]
 	leaf := func(proven int) *vmsg {
+		if funderProven {
+			// a sender that is itself a proven EOA: mostly unproven targets (the proof that counts is the target's)
+			proven = 25
+		}
 		return &vmsg{Kind: 0, VK: r.Intn(3), Target: w.pickTarget(r, inBlock, proven)}
 	}
 	n := 1
